@@ -51,6 +51,10 @@ def shape_sig(d):
                                          d[Kw("reader")][0], d[Kw("nreaders")], d[Kw("close")])
     if d[Kw("what")] == "proc":
         return "proc:%s:%s:code%s" % (cls(d[Kw("size")]), d[Kw("mode")], d[Kw("code")])
+    if d[Kw("what")] == "execute":
+        return "execute-with-gc:code%s" % d[Kw("code")]
+    if d[Kw("what")] == "queued":
+        return "queued-then-read:%s:%s:%s" % (d[Kw("kind")], d[Kw("mode")], cls(d[Kw("size")]))
     return "signal:%s" % d[Kw("signal")]
 
 
@@ -144,6 +148,18 @@ def run_items(chk, part, ds, variant="fast", chunk=8):
         calls.append(ncalls)
         what = d[Kw("what")]
         probs = judge_stream(d, r) if what == "stream" else (judge_proc(d, r) if what == "proc" else [])
+        if what == "execute":
+            if r[0] != "finished" or r[1] != d[Kw("code")] or r[2] != "done-%d\n" % d[Kw("code")]:
+                probs.append(("exit-status", "os/execute (exit %d) while collecting: returned %r, output %r" % (d[Kw("code")], r[1], r[2])))
+        if what == "queued":
+            st_, wres, rres, total, bad = r
+            if st_ == "ran":       # (if the kernel buffer was too small for the payload the scenario is void)
+                if rres != "done":
+                    probs.append(("operation-left-suspended", "all %d bytes were queued before the read, reader result %r" % (d[Kw("size")], rres)))
+                elif d[Kw("mode")] == "chunk" and total != d[Kw("size")]:
+                    probs.append(("chunk-size", "ev/chunk %d returned %d bytes" % (d[Kw("size")], total)))
+                elif bad is not None:
+                    probs.append(("order-violated", "position %r" % (bad,)))
         if what == "signal":
             # killed by a signal: the wait result must not look like a normal small exit code 0
             if r[0] != "finished" or r[1] == 0:
@@ -159,7 +175,13 @@ def run_items(chk, part, ds, variant="fast", chunk=8):
                     kinds &= {st2.lower()}
                     continue
                 r2, _n = canonparse.parse(text2)
-                p2 = judge_stream(d, r2) if what == "stream" else (judge_proc(d, r2) if what == "proc" else probs)
+                p2 = judge_stream(d, r2) if what == "stream" else (judge_proc(d, r2) if what == "proc" else [(k, "") for k in kinds])
+                if what in ("execute", "queued", "signal"):
+                    # re-judge with the same rules as above
+                    ok2 = ((what == "execute" and r2[0] == "finished" and r2[1] == d[Kw("code")]) or
+                           (what == "queued" and (r2[0] != "ran" or (r2[2] == "done" and r2[4] is None))) or
+                           (what == "signal" and r2[0] == "finished" and r2[1] != 0))
+                    p2 = [] if ok2 else [(k, "") for k in kinds]
                 kinds &= {k for k, _ in p2}
             if not kinds:
                 chk.part("not-reproduced", count=1)
@@ -226,6 +248,12 @@ def main():
                         continue
                     ps.append(proc_item(scratch, size, mode, code))
         pcalls = run_items(chk, "subprocess", ps, chunk=2)
+        ex = [{Kw("what"): Kw("execute"), Kw("scratch"): scratch, Kw("code"): c, Kw("eintr"): None} for c in (0, 7, 255)]
+        run_items(chk, "execute-with-gc", ex, chunk=1)
+        qd = [{Kw("what"): Kw("queued"), Kw("scratch"): scratch, Kw("kind"): Kw(k), Kw("mode"): Kw(m), Kw("size"): n, Kw("eintr"): None}
+              for k in ("pipe", "unix") for m in ("chunk", "read") for n in (1, 4096, 60000, 65536, 100000, 150000, 200000)
+              if not (k == "pipe" and n > 65536)]
+        run_items(chk, "queued-then-read", qd, chunk=4)
         sig = [{Kw("what"): Kw("signal"), Kw("scratch"): scratch, Kw("signal"): Kw(s), Kw("eintr"): None}
                for s in ("term", "kill", "int", "hup")]
         run_items(chk, "signals", sig, chunk=2)
